@@ -134,6 +134,10 @@ def _fit(case, X, init, cap, thr):
         _ORIG_M_STEP[0] = _km.m_step
         _km.m_step = _counting_m_step  # fit() looks m_step up as a module global: one call per iteration
     _ITER[0] = 0
+    if (case["K"] + len(case["data"]) + len(case["kind"])) % 2:
+        # settings as they come out of np.arange / a parameter grid / an HDF5 attribute: NumPy scalars, not Python numbers
+        cap = None if cap is None else np.int64(cap)
+        thr = None if thr is None else np.float64(thr)
 
     if isinstance(init, str):
         m = KMeansMachine(case["K"], init_method=init, random_state=case["rs"], max_iter=cap, convergence_threshold=thr)
